@@ -290,7 +290,7 @@ class Report:
                   violations=len(confirmed))
         write_evidence(self.prop, ev)
         close_pool()
-        if internal or (unstable and not confirmed):
+        if (internal or unstable) and not confirmed:
             print('INTERNAL-ERROR property=%s (harness defect or unstable witnesses only, no verdict)' % self.prop)
             return 2
         if confirmed:
